@@ -1,4 +1,4 @@
-/- C15 — property theorems.  Stub. -/
+/- C15 — property theorems (work in progress). -/
 import CBV.Model.C15
 
 namespace CBV.C15
